@@ -99,7 +99,43 @@ def file_inventory(path, acc=None, files=None):
     return acc, files
 
 
-def relocated_report(names, c_locale=False, late=False):
+def relink(dst, store, layout):
+    """Turn the plain copy under dst into a tree of the same bytes whose
+    files are symbolic links: 'cas' -- every file is a link into an object
+    store elsewhere, named by content hash (DVC / git-annex style); 'dedup'
+    -- every later duplicate is a relative link to the first file with the
+    same bytes, wherever that is (rdfind / jdupes style).  Returns the
+    number of links made."""
+    import hashlib
+    n = 0
+    first = {}
+    for dp, dns, fns in sorted(os.walk(dst)):
+        dns.sort()
+        for fn in sorted(fns):
+            p = os.path.join(dp, fn)
+            if os.path.islink(p) or not os.path.isfile(p):
+                continue
+            with open(p, 'rb') as f:
+                h = hashlib.sha1(f.read()).hexdigest()
+            if layout == 'cas':
+                os.makedirs(store, exist_ok=True)
+                obj = os.path.join(store, h)
+                if not os.path.exists(obj):
+                    shutil.move(p, obj)
+                else:
+                    os.unlink(p)
+                os.symlink(obj, p)
+                n += 1
+            elif h in first:
+                os.unlink(p)
+                os.symlink(os.path.relpath(first[h], dp), p)
+                n += 1
+            else:
+                first[h] = p
+    return n
+
+
+def relocated_report(names, c_locale=False, late=False, layout=None):
     """Load by name from a relocated copy in a fresh interpreter (optionally
     one whose default text encoding is ASCII: the C locale, UTF-8 mode and
     locale coercion off -- what a data file with a stray non-ASCII character
@@ -110,6 +146,9 @@ def relocated_report(names, c_locale=False, late=False):
         shutil.copytree(libs.data_dir(), dst)
         env = dict(os.environ)
         env['pgradd_DATA_DIR'] = dst
+        if layout:
+            nlinks = relink(dst, os.path.join(tmp, 'objects'), layout)
+            env['VMON_ALSO_BY_PATH'] = '1'
         if late:
             env.pop('pgradd_DATA_DIR')
             env['VMON_LATE_DATA_DIR'] = dst
@@ -126,6 +165,8 @@ def relocated_report(names, c_locale=False, late=False):
         if '@@REPORT@@' not in p.stdout:
             return None, dst, p.stderr[-1500:]
         rep = json.loads(p.stdout.split('@@REPORT@@')[1].strip())
+        if layout:
+            rep['links'] = nlinks
         return rep, dst, ''
     finally:
         shutil.rmtree(tmp, ignore_errors=True)
@@ -223,6 +264,30 @@ def check_locations(ctx, name):
                        'opened_in_package_dir': inside_l[:4]})
         return
     ctx.count('relocated_loads_with_late_override')
+    # relocated trees of the same bytes whose files are symbolic links
+    for layout in ('cas', 'dedup'):
+        rep_s, _, err_s = relocated_report([name], layout=layout)
+        ctx.evals()
+        bad = None
+        if rep_s is None:
+            bad = {'stderr': (err_s or '')[-400:]}
+        elif rep_s['digests'].get(name) != da:
+            bad = {'by_name': rep_s['digests'].get(name)}
+        elif rep_s.get('digests_by_path', {}).get(name) != da:
+            bad = {'by_path': rep_s.get('digests_by_path', {}).get(name)}
+        elif rep_s.get('scheme_digests', {}).get(name) != \
+                digests.digest_of(digests.scheme_state(a['ok'].scheme)):
+            bad = {'scheme': rep_s.get('scheme_digests', {}).get(name)}
+        if bad is not None:
+            ctx.violation('relocated tree whose files are symbolic links '
+                          '(%s) does not load as the same database' % (
+                              'into a content-addressed store'
+                              if layout == 'cas' else
+                              'from duplicates to their first copy'),
+                          dict(case, layout=layout), bad)
+            return
+        ctx.count('relocated_loads_from_symlinked_trees')
+        ctx.maximum('symbolic_links_in_a_relocated_tree', rep_s['links'])
     # the scheme alone, loaded by name: here, by path, and relocated
     from pgradd.GroupAdd.Scheme import GroupAdditivityScheme
     s1 = observe(GroupAdditivityScheme.Load, name)
